@@ -79,11 +79,15 @@ pub enum Res {
 #[derive(Clone, Copy, Debug)]
 pub struct Event {
     pub seq: u32,
+    /// which source a Read/Open event belongs to: 0 = stdin, i + 1 = i-th simulated file
+    pub src: u8,
     pub chan: Chan,
     pub at: u32,
     pub asked: u32,
     pub res: Res,
     pub consumed: u32,
+    /// bytes delivered by all source devices (stdin and files) when the call happened
+    pub delivered: u32,
 }
 
 #[derive(Clone, Debug, Default, Serialize, Deserialize, PartialEq)]
@@ -140,6 +144,23 @@ pub struct SinkPlan {
     pub hostile: bool,
 }
 
+/// How one simulated file argument is delivered (hook H2). The content comes from the case.
+#[derive(Clone, Debug, Default, Serialize, Deserialize, PartialEq)]
+pub struct FilePlan {
+    /// cyclic chunk limits of the device (empty = unlimited)
+    #[serde(default)]
+    pub chunks: Vec<usize>,
+    #[serde(default)]
+    pub eintr: Vec<(usize, u32)>,
+    #[serde(default, skip_serializing_if = "Option::is_none")]
+    pub fault: Option<Fault>,
+    #[serde(default, skip_serializing_if = "Option::is_none")]
+    pub endless: Option<Endless>,
+    /// the open itself fails
+    #[serde(default, skip_serializing_if = "Option::is_none")]
+    pub open_fails: Option<ErrKind>,
+}
+
 pub const POST_FAULT_CALLS: u32 = 64;
 
 pub struct SimAbort(pub String);
@@ -161,6 +182,8 @@ struct SourceState {
     intr_delivered: u32,
     short_reads: u32,
     byte_budget: usize,
+    opened: u32,
+    open_fails: Option<ErrKind>,
 }
 
 struct SinkState {
@@ -181,8 +204,15 @@ pub struct World {
     log: Vec<Event>,
     max_events: usize,
     consumed: usize,
+    delivered: usize,
     opened: u32,
-    src: SourceState,
+    /// index 0 = stdin, i + 1 = i-th simulated file
+    srcs: Vec<SourceState>,
+    cur_src: u8,
+    /// a fatal read failure was delivered on some source
+    any_rfault: bool,
+    ok_reads_after_any_rfault: u32,
+    opens_after_any_rfault: u32,
     out: SinkState,
     err: SinkState,
     aborted: Option<String>,
@@ -202,11 +232,13 @@ impl World {
         }
         self.log.push(Event {
             seq: self.seq,
+            src: if matches!(chan, Chan::Read | Chan::Open) { self.cur_src } else { 0 },
             chan,
             at: at as u32,
             asked: asked as u32,
             res,
             consumed: self.consumed as u32,
+            delivered: self.delivered as u32,
         });
         Ok(())
     }
@@ -221,17 +253,26 @@ fn abort(w: &Shared, mut g: std::sync::MutexGuard<'_, World>, why: String) -> ! 
 
 pub struct SimSource {
     w: Shared,
+    which: usize,
 }
 
 impl Read for SimSource {
     fn read(&mut self, buf: &mut [u8]) -> io::Result<usize> {
         let mut g = lock(&self.w);
+        let which = self.which;
+        g.cur_src = which as u8;
+        macro_rules! src {
+            () => {
+                g.srcs[which]
+            };
+        }
         let asked = buf.len();
-        let pos = g.src.pos;
-        if g.src.hostile {
-            g.src.post_fault_calls += 1;
-            g.src.fault_delivered = true;
-            if g.src.post_fault_calls > POST_FAULT_CALLS {
+        let pos = src!().pos;
+        if src!().hostile {
+            src!().post_fault_calls += 1;
+            src!().fault_delivered = true;
+            g.any_rfault = true;
+            if src!().post_fault_calls > POST_FAULT_CALLS {
                 abort(&self.w, g, "read retried more than 64 times after a failure".into());
             }
             if let Err(e) = g.push(Chan::Read, pos, asked, Res::Fail(ErrKind::Other)) {
@@ -239,11 +280,11 @@ impl Read for SimSource {
             }
             return Err(ErrKind::Other.to_io());
         }
-        if g.src.fault_delivered {
-            if let Some(f) = g.src.fault.clone() {
+        if src!().fault_delivered {
+            if let Some(f) = src!().fault.clone() {
                 if f.sticky {
-                    g.src.post_fault_calls += 1;
-                    if g.src.post_fault_calls > POST_FAULT_CALLS {
+                    src!().post_fault_calls += 1;
+                    if src!().post_fault_calls > POST_FAULT_CALLS {
                         abort(&self.w, g, "read retried more than 64 times after a failure".into());
                     }
                     if let Err(e) = g.push(Chan::Read, pos, asked, Res::Fail(f.kind)) {
@@ -261,7 +302,7 @@ impl Read for SimSource {
         }
         // pending Interrupted results at this offset
         let mut intr = false;
-        for e in g.src.eintr.iter_mut() {
+        for e in src!().eintr.iter_mut() {
             if e.0 == pos && e.1 > 0 {
                 e.1 -= 1;
                 intr = true;
@@ -269,16 +310,17 @@ impl Read for SimSource {
             }
         }
         if intr {
-            g.src.intr_delivered += 1;
+            src!().intr_delivered += 1;
             if let Err(e) = g.push(Chan::Read, pos, asked, Res::Intr) {
                 abort(&self.w, g, e);
             }
             return Err(io::Error::new(io::ErrorKind::Interrupted, "sim-eintr"));
         }
-        if !g.src.fault_delivered {
-            if let Some(f) = g.src.fault.clone() {
+        if !src!().fault_delivered {
+            if let Some(f) = src!().fault.clone() {
                 if f.at == pos {
-                    g.src.fault_delivered = true;
+                    src!().fault_delivered = true;
+                    g.any_rfault = true;
                     if let Err(e) = g.push(Chan::Read, pos, asked, Res::Fail(f.kind)) {
                         abort(&self.w, g, e);
                     }
@@ -287,26 +329,29 @@ impl Read for SimSource {
             }
         }
         // refill from the endless tail if the finite part is exhausted
-        if g.src.pos >= g.src.data.len() {
-            if let Some(en) = g.src.endless.clone() {
-                if g.src.data.len() > g.src.byte_budget {
+        if src!().pos >= src!().data.len() {
+            if let Some(en) = src!().endless.clone() {
+                if src!().data.len() > src!().byte_budget {
                     abort(
                         &self.w,
                         g,
                         "endless source: byte budget exhausted (jawk keeps reading)".into(),
                     );
                 }
-                let k = g.src.endless_k;
-                g.src.endless_k += 1;
+                let k = src!().endless_k;
+                src!().endless_k += 1;
                 let rec = en.record(k);
-                g.src.data.extend_from_slice(&rec);
+                src!().data.extend_from_slice(&rec);
             }
         }
-        let avail = g.src.data.len() - g.src.pos;
+        let avail = src!().data.len() - src!().pos;
         if avail == 0 {
-            g.src.eof_polls += 1;
-            if g.src.fault_delivered {
-                g.src.ok_reads_after_fault += 1;
+            src!().eof_polls += 1;
+            if src!().fault_delivered {
+                src!().ok_reads_after_fault += 1;
+            }
+            if g.any_rfault {
+                g.ok_reads_after_any_rfault += 1;
             }
             if let Err(e) = g.push(Chan::Read, pos, asked, Res::Eof) {
                 abort(&self.w, g, e);
@@ -314,21 +359,21 @@ impl Read for SimSource {
             return Ok(0);
         }
         let mut n = asked.min(avail);
-        if !g.src.chunks.is_empty() {
-            let i = g.src.chunk_idx % g.src.chunks.len();
-            g.src.chunk_idx += 1;
-            n = n.min(g.src.chunks[i].max(1));
+        if !src!().chunks.is_empty() {
+            let i = src!().chunk_idx % src!().chunks.len();
+            src!().chunk_idx += 1;
+            n = n.min(src!().chunks[i].max(1));
         }
         // never straddle an offset at which something is planned
         let mut stop = usize::MAX;
-        if !g.src.fault_delivered {
-            if let Some(f) = &g.src.fault {
+        if !src!().fault_delivered {
+            if let Some(f) = &src!().fault {
                 if f.at > pos {
                     stop = stop.min(f.at);
                 }
             }
         }
-        for e in &g.src.eintr {
+        for e in &src!().eintr {
             if e.0 > pos && e.1 > 0 {
                 stop = stop.min(e.0);
             }
@@ -337,12 +382,16 @@ impl Read for SimSource {
             n = n.min(stop - pos);
         }
         if n < asked.min(avail) {
-            g.src.short_reads += 1;
+            src!().short_reads += 1;
         }
-        buf[..n].copy_from_slice(&g.src.data[pos..pos + n]);
-        g.src.pos += n;
-        if g.src.fault_delivered {
-            g.src.ok_reads_after_fault += 1;
+        buf[..n].copy_from_slice(&src!().data[pos..pos + n]);
+        src!().pos += n;
+        g.delivered += n;
+        if src!().fault_delivered {
+            src!().ok_reads_after_fault += 1;
+        }
+        if g.any_rfault {
+            g.ok_reads_after_any_rfault += 1;
         }
         if let Err(e) = g.push(Chan::Read, pos, asked, Res::N(n as u32)) {
             abort(&self.w, g, e);
@@ -555,6 +604,12 @@ impl Read for SimIn {
     }
 }
 
+pub struct FileSrc {
+    pub data: Vec<u8>,
+    pub plan: FilePlan,
+    pub byte_budget: usize,
+}
+
 pub struct WorldSpec {
     pub input: Vec<u8>,
     pub delivery: Delivery,
@@ -562,9 +617,42 @@ pub struct WorldSpec {
     pub hostile_stdin: bool,
     pub endless: Option<Endless>,
     pub byte_budget: usize,
+    pub files: Vec<FileSrc>,
     pub out: SinkPlan,
     pub err: SinkPlan,
     pub max_events: usize,
+}
+
+fn source(
+    data: Vec<u8>,
+    chunks: Vec<usize>,
+    eintr: Vec<(usize, u32)>,
+    fault: Option<Fault>,
+    hostile: bool,
+    endless: Option<Endless>,
+    byte_budget: usize,
+    open_fails: Option<ErrKind>,
+) -> SourceState {
+    SourceState {
+        data,
+        pos: 0,
+        chunk_idx: 0,
+        chunks,
+        eintr,
+        fault,
+        fault_delivered: false,
+        post_fault_calls: 0,
+        ok_reads_after_fault: 0,
+        hostile,
+        endless,
+        endless_k: 0,
+        eof_polls: 0,
+        intr_delivered: 0,
+        short_reads: 0,
+        byte_budget,
+        opened: 0,
+        open_fails,
+    }
 }
 
 pub fn new_world(spec: WorldSpec) -> Shared {
@@ -580,30 +668,40 @@ pub fn new_world(spec: WorldSpec) -> Shared {
         short_writes: 0,
         calls: 0,
     };
+    let mut srcs = vec![source(
+        spec.input,
+        spec.delivery.chunks.clone(),
+        spec.delivery.eintr.clone(),
+        spec.rfault,
+        spec.hostile_stdin,
+        spec.endless,
+        spec.byte_budget,
+        None,
+    )];
+    for f in spec.files {
+        srcs.push(source(
+            f.data,
+            f.plan.chunks,
+            f.plan.eintr,
+            f.plan.fault,
+            false,
+            f.plan.endless,
+            f.byte_budget,
+            f.plan.open_fails,
+        ));
+    }
     Arc::new(Mutex::new(World {
         seq: 0,
         log: Vec::new(),
         max_events: spec.max_events,
         consumed: 0,
+        delivered: 0,
         opened: 0,
-        src: SourceState {
-            data: spec.input,
-            pos: 0,
-            chunk_idx: 0,
-            chunks: spec.delivery.chunks.clone(),
-            eintr: spec.delivery.eintr.clone(),
-            fault: spec.rfault,
-            fault_delivered: false,
-            post_fault_calls: 0,
-            ok_reads_after_fault: 0,
-            hostile: spec.hostile_stdin,
-            endless: spec.endless,
-            endless_k: 0,
-            eof_polls: 0,
-            intr_delivered: 0,
-            short_reads: 0,
-            byte_budget: spec.byte_budget,
-        },
+        srcs,
+        cur_src: 0,
+        any_rfault: false,
+        ok_reads_after_any_rfault: 0,
+        opens_after_any_rfault: 0,
         out: sink(spec.out),
         err: sink(spec.err),
         aborted: None,
@@ -613,9 +711,14 @@ pub fn new_world(spec: WorldSpec) -> Shared {
 pub fn open_stdin(w: &Shared, delivery: &Delivery) -> SimIn {
     let mut g = lock(w);
     g.opened += 1;
+    g.cur_src = 0;
+    g.srcs[0].opened += 1;
+    if g.any_rfault {
+        g.opens_after_any_rfault += 1;
+    }
     let _ = g.push(Chan::Open, 0, 0, Res::Done);
     if delivery.whole {
-        let data = g.src.data.clone();
+        let data = g.srcs[0].data.clone();
         drop(g);
         return SimIn::Slice(Counting {
             inner: io::Cursor::new(data),
@@ -623,7 +726,7 @@ pub fn open_stdin(w: &Shared, delivery: &Delivery) -> SimIn {
         });
     }
     drop(g);
-    let src = SimSource { w: w.clone() };
+    let src = SimSource { w: w.clone(), which: 0 };
     match delivery.bufcap {
         None => SimIn::Raw(Counting {
             inner: src,
@@ -634,6 +737,26 @@ pub fn open_stdin(w: &Shared, delivery: &Delivery) -> SimIn {
             w: w.clone(),
         }),
     }
+}
+
+/// Open the i-th simulated file (hook H2). jawk wraps the result in its own BufReader.
+pub fn open_file(w: &Shared, i: usize) -> io::Result<SimSource> {
+    let mut g = lock(w);
+    let which = i + 1;
+    g.cur_src = which as u8;
+    g.srcs[which].opened += 1;
+    if g.any_rfault {
+        g.opens_after_any_rfault += 1;
+    }
+    if let Some(k) = g.srcs[which].open_fails {
+        g.srcs[which].fault_delivered = true;
+        g.any_rfault = true;
+        let _ = g.push(Chan::Open, 0, 0, Res::Fail(k));
+        return Err(k.to_io());
+    }
+    let _ = g.push(Chan::Open, 0, 0, Res::Done);
+    drop(g);
+    Ok(SimSource { w: w.clone(), which })
 }
 
 pub fn sinks(w: &Shared) -> (SimSink, SimSink) {
@@ -673,6 +796,25 @@ pub struct Obs {
     pub out_calls: u32,
     pub err_calls: u32,
     pub aborted: Option<String>,
+    /// simulated file arguments (hook H2), in argument order
+    pub files: Vec<SrcObs>,
+    /// bytes delivered by all source devices
+    pub delivered: usize,
+    pub any_rfault: bool,
+    pub ok_reads_after_any_rfault: u32,
+    pub opens_after_any_rfault: u32,
+}
+
+#[derive(Clone, Debug, Default)]
+pub struct SrcObs {
+    pub opened: u32,
+    pub device_pos: usize,
+    pub fault_delivered: bool,
+    pub ok_reads_after_fault: u32,
+    pub post_fault_calls: u32,
+    pub intr_reads: u32,
+    pub short_reads: u32,
+    pub eof_polls: u32,
 }
 
 pub fn observe(w: &Shared) -> Obs {
@@ -682,22 +824,39 @@ pub fn observe(w: &Shared) -> Obs {
         stderr: std::mem::take(&mut g.err.data),
         events: std::mem::take(&mut g.log),
         consumed: g.consumed,
-        device_pos: g.src.pos,
+        device_pos: g.srcs[0].pos,
         opened: g.opened,
-        rfault_delivered: g.src.fault_delivered,
-        ok_reads_after_rfault: g.src.ok_reads_after_fault,
-        post_rfault_calls: g.src.post_fault_calls,
+        rfault_delivered: g.srcs[0].fault_delivered,
+        ok_reads_after_rfault: g.srcs[0].ok_reads_after_fault,
+        post_rfault_calls: g.srcs[0].post_fault_calls,
         out_fault_delivered: g.out.fault_delivered,
         out_fault_offset: g.out.fault_offset,
         err_fault_delivered: g.err.fault_delivered,
         err_fault_offset: g.err.fault_offset,
-        intr_reads: g.src.intr_delivered,
-        short_reads: g.src.short_reads,
+        intr_reads: g.srcs.iter().map(|s| s.intr_delivered).sum(),
+        short_reads: g.srcs.iter().map(|s| s.short_reads).sum(),
         intr_writes: g.out.intr_delivered + g.err.intr_delivered,
         short_writes: g.out.short_writes + g.err.short_writes,
-        eof_polls: g.src.eof_polls,
+        eof_polls: g.srcs[0].eof_polls,
         out_calls: g.out.calls,
         err_calls: g.err.calls,
         aborted: g.aborted.clone(),
+        files: g.srcs[1..]
+            .iter()
+            .map(|s| SrcObs {
+                opened: s.opened,
+                device_pos: s.pos,
+                fault_delivered: s.fault_delivered,
+                ok_reads_after_fault: s.ok_reads_after_fault,
+                post_fault_calls: s.post_fault_calls,
+                intr_reads: s.intr_delivered,
+                short_reads: s.short_reads,
+                eof_polls: s.eof_polls,
+            })
+            .collect(),
+        delivered: g.delivered,
+        any_rfault: g.any_rfault,
+        ok_reads_after_any_rfault: g.ok_reads_after_any_rfault,
+        opens_after_any_rfault: g.opens_after_any_rfault,
     }
 }
